@@ -30,6 +30,8 @@ type WorkerOpts struct {
 	Deadline  int64  `json:"deadline"` // unix nano; 0 = none
 	CaseMs    int64  `json:"case_ms"`
 	One       *Case  `json:"one,omitempty"` // run only this case (replay / confirmation)
+	Slot      int    `json:"slot"`
+	RaceSet   bool   `json:"race_set,omitempty"` // this worker is the -race binary and runs only Race levels
 }
 
 // LevelStat is reported per level by each worker.
@@ -223,7 +225,7 @@ func WorkerMain(opts WorkerOpts) {
 	debug.SetMaxStack(96 << 20)
 	var lim syscall.Rlimit
 	lim.Cur, lim.Max = 8<<30, 8<<30
-	if !chk.Race { // the race runtime reserves a huge address range
+	if !chk.Race && !opts.RaceSet { // the race runtime reserves a huge address range
 		syscall.Setrlimit(syscall.RLIMIT_AS, &lim)
 	}
 	if opts.CaseMs == 0 {
@@ -269,6 +271,11 @@ func WorkerMain(opts WorkerOpts) {
 	stopped := false
 	for li, lvl := range levels {
 		ls := LevelStat{Name: lvl.Name}
+		if lvl.Race != opts.RaceSet {
+			ls.Done = true
+			sum.Levels = append(sum.Levels, ls)
+			continue
+		}
 		if li < opts.FromLevel || stopped {
 			ls.Done = li < opts.FromLevel
 			sum.Levels = append(sum.Levels, ls)
@@ -320,6 +327,9 @@ func WorkerMain(opts WorkerOpts) {
 				sum.Evals++
 				ls.Ran++
 				sum.Distinct++
+				if r.Capped {
+					sum.Capped = true
+				}
 				sum.States += r.States
 				sum.Trans += r.Trans
 				sum.Traces += r.Traces
